@@ -91,6 +91,11 @@ var c09Batch []c09Item
 
 // c09Exec runs one execution and returns its digest and a short human-readable summary.
 func c09Exec(scripts []string, seed string, choiceSeed uint64) (string, string) {
+	return c09ExecHooked(scripts, seed, choiceSeed, nil)
+}
+
+// c09ExecHooked calls hook(step) after the runner was created (step 0) and after every Next.
+func c09ExecHooked(scripts []string, seed string, choiceSeed uint64, hook func(step int)) (string, string) {
 	st := mon.NewRecStorer()
 	rr, err, pan := mon.Create(st, seed, scripts)
 	if pan != "" {
@@ -101,6 +106,9 @@ func c09Exec(scripts []string, seed string, choiceSeed uint64) (string, string) 
 	}
 	null := &mon.HostLog{}
 	rr.Install(mon.FlowFuncs(null), mon.FlowCmds(null))
+	if hook != nil {
+		hook(0)
+	}
 	cr := core.NewRand(choiceSeed)
 	h := sha256.New()
 	var sum []string
@@ -108,6 +116,9 @@ func c09Exec(scripts []string, seed string, choiceSeed uint64) (string, string) 
 	arg := 0
 	for step := 0; step < 200; step++ {
 		o := rr.Next(arg)
+		if hook != nil {
+			hook(step + 1)
+		}
 		arg = int(cr.U64() % 7)
 		line := o.String()
 		if o.Kind == mon.KLine {
